@@ -6,7 +6,9 @@
    not enabled.  One event = one atomic action of one goroutine.
 
    What is transcribed
-   - messageSenderForPeer (:130-160): the two critical sections under [smlk]
+   - messageSenderForPeer (:130-168, as repaired by d646d02: a failed Lock(ctx)
+     in prepOrInvalidate no longer removes the sender from the map): the two
+     critical sections under [smlk]
      are the atomic events [EStart] and [EAfterFail] (the map lock is held only
      around map reads/writes with no blocking inside, so each section is one
      atomic action; the lock itself is not a separate event).
@@ -104,7 +106,7 @@ Inductive pc :=
 | PNew (sd : nat)                 (* created ms (:137-139); in ms.lk.Lock of prepOrInvalidate (:186) *)
 | PPrepNew (sd : nat)             (* holds the lock in prepOrInvalidate, before prep (:191) *)
 | PDialNew (sd : nat)             (* in host.NewStream called from prepOrInvalidate *)
-| PFailed (sd : nat) (e : err)    (* prepOrInvalidate returned e (:141) *)
+| PFailed (sd : nat) (e : err)    (* prepOrInvalidate returned (true, e): ms invalidated (:141, :150) *)
 | PLoop (sd : nat) (retry : bool) (* top of the for loop, lock held (:232/:269) *)
 | PDial (sd : nat) (retry : bool) (* in host.NewStream called from the loop's prep *)
 | PWrite (sd : nat) (retry : bool)(* prep ok, before writeMsg (:237/:274) *)
@@ -310,7 +312,10 @@ Definition step (s : state) (e : event) : option state :=
           | Some k =>
               match t_pc th with
               | PGot sd => Some (put_thread s t (th_pc th (PDone (RErr (ECtxErr k)))))
-              | PNew sd => Some (put_thread s t (th_pc th (PFailed sd (ECtxErr k))))
+              | PNew sd =>
+                  (* prepOrInvalidate returns (false, err): ms was not invalidated and stays in
+                     the map; messageSenderForPeer returns the error at once (:141-148) *)
+                  Some (put_thread s t (th_pc th (PDone (RErr (ECtxErr k)))))
               | _ => None
               end
           end
